@@ -270,6 +270,50 @@ func checkP2c(c *Ctx, pr *prioRoles) {
 			}
 		}
 	}
+	if c.R.Property == "C05" {
+		return // (with every input open and loaded nothing is drained: not C05's business)
+	}
+	// ... and only then: the registered list shrinks only where the table entry of the same key is
+	// deleted (a key dropped from the list while its entry stays - "a drained input needs no
+	// share" - is not appended again when a new channel is registered under it, because the
+	// entry exists: the new channel is never read)
+	for _, fn := range pr.rt.Funcs {
+		for _, b := range fn.Blocks {
+			for _, in := range b.Instrs {
+				st, isSt := fieldStore(in, "priorities")
+				if !isSt {
+					continue
+				}
+				val := stripRefConv(st.Val)
+				if _, isMake := val.(*ssa.MakeSlice); isMake {
+					continue
+				}
+				var key ssa.Value
+				if c2, isC := val.(*ssa.Call); isC {
+					if bi, isB := c2.Call.Value.(*ssa.Builtin); isB && bi.Name() == "append" {
+						continue // grows (D2 #append-base, #append-unique)
+					}
+					if len(c2.Call.Args) == 2 {
+						key = c2.Call.Args[1]
+					}
+				}
+				okDel := false
+				for _, b2 := range fn.Blocks {
+					for _, in2 := range b2.Instrs {
+						call, ok := in2.(*ssa.Call)
+						if !ok {
+							continue
+						}
+						bi, isB := call.Call.Value.(*ssa.Builtin)
+						if isB && bi.Name() == "delete" && p.isFieldLoad(call.Call.Args[0], "inputs") && (key == nil || call.Call.Args[1] == key) {
+							okDel = true
+						}
+					}
+				}
+				c.R.Check(okDel, "P2", p.FnKey(fn)+"#list-shrinks-with-table", p.InstrPos(in), "the registered list loses a key only where its table entry is deleted", "a priority is taken out of the registered list although its entry stays in the input table: a channel registered under it later is not appended again (the entry exists) and is never read")
+			}
+		}
+	}
 }
 
 func checkP2(c *Ctx, pr *prioRoles) {
